@@ -12,10 +12,10 @@ package main
 
 import (
 	"context"
-	"net/http"
 	"encoding/json"
 	"flag"
 	"fmt"
+	"net/http"
 	"os"
 	"runtime/debug"
 	"strings"
@@ -25,11 +25,11 @@ import (
 	"github.com/spf13/afero"
 	"go.uber.org/zap"
 
+	phttpimport "github.com/yandex/pandora/components/phttp/import"
 	grpcammo "github.com/yandex/pandora/components/providers/grpc"
 	"github.com/yandex/pandora/components/providers/grpc/grpcjson"
 	httpprov "github.com/yandex/pandora/components/providers/http"
 	httpconf "github.com/yandex/pandora/components/providers/http/config"
-	phttpimport "github.com/yandex/pandora/components/phttp/import"
 	scnimport "github.com/yandex/pandora/components/providers/scenario/import"
 	"github.com/yandex/pandora/core"
 	coreimport "github.com/yandex/pandora/core/import"
@@ -105,7 +105,7 @@ func malformedChild(args []string) {
 			}
 		}
 		if hung {
-			ln = mfLine{K: j.K, C: j.C, Format: j.Fmt, Mode: j.Mode, Seed: j.Seed, Evs: []mfEvent{{"Hang", fmt.Sprintf("no return within %v, twice", mfHangWait)}}, Res: "hang"}
+			ln = mfLine{K: j.K, C: j.C, Format: j.Fmt, Mode: j.Mode, Seed: j.Seed, EC: j.EC, Obs: mfHangObs(j), Evs: []mfEvent{{"Hang", fmt.Sprintf("no return within %v, twice", mfHangWait)}}, Res: "hang"}
 			emit(ln)
 			f.Close()
 			os.Exit(4)
@@ -113,6 +113,13 @@ func malformedChild(args []string) {
 		emit(ln)
 	}
 	f.Close()
+}
+
+func mfHangObs(j mfJob) *mfEditObs {
+	if j.K != "edit" {
+		return nil
+	}
+	return &mfEditObs{Res: "hang", InvalidAt: []int{}}
 }
 
 func machinery(format string, a ...interface{}) {
@@ -132,6 +139,8 @@ func mfRunJob(j mfJob) mfLine {
 		return mfRunDescCase(*j.C)
 	case "fuzz":
 		return mfRunFuzz(j)
+	case "edit":
+		return mfRunEdit(*j.EC)
 	}
 	machinery("unknown job kind %q", j.K)
 	return mfLine{}
@@ -146,7 +155,7 @@ type mfDelivery struct {
 	rawURI                         string
 	Invalid                        bool
 	keep                           *http.Request // the built request, looked at again when the whole file has been read
-	Raw                            string // whole projection (fuzz: compared for equality with the reference run)
+	Raw                            string        // whole projection (fuzz: compared for equality with the reference run)
 }
 
 type mfRunResult struct {
